@@ -89,7 +89,7 @@ fn check_item(it: &Item, st: &mut Stats) -> Result<(), String> {
 }
 
 pub fn run(ctx: &Ctx, rep: &mut Report) {
-    rep.rule = "enumeration of all 477 K' of Table 2 (and K = K'-1 for each): encoders are built by direct solve and by plan replay on the sparse back-end (all K') and on the dense back-end (K' <= 6000 quick, all K' thorough), from random T=3 data and (quick: for K' <= 3000 and every 5th larger K') from one-hot data and with K = K'-1; every set of intermediate symbols is checked against all S LDPC, H HDPC and K' LT relations evaluated by the reference model; direct == replay, dense == sparse, production plan == direct. Each (K, back-end, mode, data class) is a distinct non-trivial case.".into();
+    rep.rule = "enumeration of all 477 K' of Table 2 (and K = K'-1 for each, and the smallest K of the row - maximal padding - for every second row quick / every row thorough): encoders are built by direct solve and by plan replay on the sparse back-end (all K') and on the dense back-end (K' <= 6000 quick, all K' thorough), from random T=3 data and (quick: for K' <= 3000 and every 5th larger K') from one-hot data and with K = K'-1; every set of intermediate symbols is checked against all S LDPC, H HDPC and K' LT relations evaluated by the reference model; direct == replay, dense == sparse, production plan == direct. Each (K, back-end, mode, data class) is a distinct non-trivial case.".into();
     rep.exhaustive = true;
     rep.assumptions.push("exhaustive over K' (all 477) and K'-1; data is sampled (the relations are linear in the data: C09)".into());
     if ctx.tier == Tier::Quick {
@@ -100,6 +100,8 @@ pub fn run(ctx: &Ctx, rep: &mut Report) {
     let mut items = vec![];
     // big ones first so that the long poles start early
     let mut kps: Vec<u32> = rf::tables().t2.iter().map(|r| r.0).collect();
+    let kps_sorted = kps.clone();
+    let nrows = kps.len();
     kps.reverse();
     let phase = (crate::util::mix(ctx.seed, 6) % 5) as usize;
     for (i, kp) in kps.into_iter().enumerate() {
@@ -107,6 +109,13 @@ pub fn run(ctx: &Ctx, rep: &mut Report) {
         items.push(Item { k: kp, t: 3, one_hot: false, seed: rng.next_u64(), dense, sparse: true });
         // quick tier: the two extra data/padding variants for every K' <= 3000 and every 5th above
         let extra = ctx.tier == Tier::Thorough || kp <= 3000 || i % 5 == phase;
+        // the smallest K of the row: as many padding symbols as the row allows
+        if i + 1 < nrows && (ctx.tier == Tier::Thorough || i % 2 == (phase % 2)) {
+            let lo = kps_sorted[nrows - 2 - i] + 1;
+            if lo < kp {
+                items.push(Item { k: lo, t: 2, one_hot: false, seed: rng.next_u64(), dense: dense && kp <= 3000, sparse: true });
+            }
+        }
         if extra {
             items.push(Item { k: kp, t: 1, one_hot: true, seed: rng.next_u64(), dense: dense && kp <= 2000, sparse: true });
             items.push(Item { k: kp - 1, t: 2, one_hot: false, seed: rng.next_u64(), dense: dense && kp <= 3000, sparse: true });
